@@ -366,7 +366,7 @@ package models
 //@     && (forall id: uint32 :: id in s.entities && !(s.entities[id].ParticipantID in s.participants) ==> s.entities[id].Persist)
 //@     && (forall p: uint32, e: uint32 :: p in s.participants && e in s.participants[p].entityIDs && e in s.entities ==> s.entities[e].ParticipantID == p)
 //@     && (forall p1: uint32, p2: uint32 :: p1 in s.participants && p2 in s.participants && p1 != p2 && s.participants[p1].entityIDs != nil ==> s.participants[p1].entityIDs != s.participants[p2].entityIDs)
-//@ spec fn wfFrames(s *Session) bool = s.frameHandlers != nil && wfGen(s.frameHandlerIDs) && (forall k: uint32 :: k in s.frameHandlers ==> live(s.frameHandlerIDs, k))
+//@ spec fn wfFrames(s *Session) bool = s.frameHandlers != nil && wfGen(s.frameHandlerIDs) && (forall k: uint32 :: k in s.frameHandlers ==> live(s.frameHandlerIDs, k) && s.frameHandlers[k] != nil)
 //@ spec fn wfSession(s *Session) bool = wfParts(s) && wfEnts(s) && s.entityComponents != nil && wfStore(s.entityComponents) && wfIDs(s) && wfOwnership(s) && wfFrames(s)
 
 // ---------------------------------------------------------------------------------------------
@@ -457,6 +457,27 @@ package models
 //@   ensures {C07} registered(s, session)
 //@   ensures {C07} forall g: string :: g != gid(serverid(s.DiscoveryService), session.ID) ==> ((g in s.sessions) <==> (old(once_done(s.initOnce)) && old(g in s.sessions))) && (g in s.sessions ==> s.sessions[g] == old(s.sessions[g]))
 //@   ensures {C07} gaugetotal(sessions) == old(gaugetotal(sessions)) + 1
+
+// The frame worker: one goroutine per session, started once; on every tick it calls the registered frame
+// callbacks with frameMutex held for reading, and it returns only after the stop signal of Close.
+//@ func (*models.Session).StartDispatchFrames
+//@   property C09, C07
+//@   requires s.frameTicker != nil && s.closeFrameChan != nil
+//@   requires forall k: uint32 :: k in s.frameHandlers ==> s.frameHandlers[k] != nil
+//@   modifies all *
+//@   allocates
+
+//@ func (*models.Session).StartDispatchFrames$1
+//@   property C09, C07
+//@   requires s != nil && s.frameTicker != nil && s.closeFrameChan != nil
+//@   requires forall k: uint32 :: k in s.frameHandlers ==> s.frameHandlers[k] != nil
+//@   modifies all *
+//@   allocates
+//@   loop 1:
+//@     invariant unchanged(s) && s != nil && s.frameTicker != nil && s.closeFrameChan != nil
+//@   loop 2:
+//@     invariant unchanged(s) && s != nil
+//@     emits [callfn(_)]
 
 //@ func (*models.Session).Close
 //@   property C07
